@@ -339,6 +339,30 @@ var cmpops = map[token.Token][2]string{
 func (in *interp) symBinop(op token.Token, x, y value) value {
 	c := in.ctx
 	kx, ky := kindOf(x), kindOf(y)
+	if _, isF := x.(float64); isF {
+		kx = types.Float64
+	}
+	if _, isF := y.(float64); isF {
+		ky = types.Float64
+	}
+	if kx == types.Float64 && ky == types.Float64 {
+		tx, ty := in.term(x), in.term(y)
+		switch op {
+		case token.LSS:
+			return mkval(c.FP("fp.lt", tx, ty), types.Bool)
+		case token.LEQ:
+			return mkval(c.FP("fp.leq", tx, ty), types.Bool)
+		case token.GTR:
+			return mkval(c.FP("fp.lt", ty, tx), types.Bool)
+		case token.GEQ:
+			return mkval(c.FP("fp.leq", ty, tx), types.Bool)
+		case token.EQL:
+			return mkval(c.FP("fp.eq", tx, ty), types.Bool)
+		case token.NEQ:
+			return mkval(c.Not(c.FP("fp.eq", tx, ty)), types.Bool)
+		}
+		return poison{fmt.Sprintf("float arithmetic %s on a symbolic value", op)}
+	}
 	if kx == types.Invalid || ky == types.Invalid {
 		// float/complex/string mixed with symbolic: not representable
 		return poison{fmt.Sprintf("binop %s on %T,%T", op, x, y)}
@@ -617,6 +641,9 @@ func (in *interp) unop(instr *ssa.UnOp, x value) value {
 		return in.chanRecv(x.(*channel), instr.X.Type().Underlying().(*types.Chan).Elem(), instr.CommaOk)
 	case token.SUB:
 		if s, ok := x.(*Sym); ok {
+			if s.K == types.Float64 {
+				return poison{"negation of a symbolic float"}
+			}
 			return mkval(in.ctx.BV1("bvneg", s.T), s.K)
 		}
 		switch x := x.(type) {
@@ -882,6 +909,12 @@ func (in *interp) conv(t_dst, t_src types.Type, x value) value {
 			db, ok := ut_dst.(*types.Basic)
 			if !ok {
 				unsupported("conversion of symbolic %v to %v", t_src, t_dst)
+			}
+			if s.K == types.Float64 {
+				if db.Kind() == types.Float64 {
+					return s
+				}
+				return poison{"conversion of a symbolic float"}
 			}
 			if db.Info()&types.IsInteger == 0 {
 				return poison{fmt.Sprintf("conversion of symbolic %v to %v", t_src, t_dst)}
